@@ -5,7 +5,11 @@ Require Extraction.
 Require Import ExtrOcamlBasic.
 From Coq Require Import NArith ZArith.
 From WMD Require Import Lib.Str Lib.PyChars Model.ContentType Model.Server Model.Etag Model.Decode Model.Pool Model.Dmp Model.Links.
-From WMD Require Import Lib.Difflib.
+From WMD Require Import Lib.Difflib Model.RenderTokens Model.RenderMerge.
+(* unique names for functions whose short names clash across modules *)
+Definition x_links_assemble_diff := Links.assemble_diff.
+Definition x_links_count_changes := Links.count_changes.
+Definition x_render_tokenize := RenderTokens.tokenize.
 Extraction Language OCaml.
 Extraction "extracted.ml"
   ContentType.is_not_html ContentType.raise_if_not_diffable_html ContentType.ct_error_message
@@ -16,6 +20,8 @@ Extraction "extracted.ml"
   Decode.extract_encoding Decode.decode_body
   Pool.run Pool.count_submits
   Dmp.get_visible_text Dmp.compute_dmp_diff Dmp.html_source_diff Dmp.old_side Dmp.new_side
-  Links.links_diff Links.assemble_diff Links.page_links Links.clean_href Links.count_changes Links.rebalance
+  Links.links_diff x_links_assemble_diff Links.page_links Links.clean_href x_links_count_changes Links.rebalance
   Links.same_key Links.rough_eq Links.dlink Difflib.get_opcodes Difflib.insensitive_opcodes
+  RenderMerge.htmldiff RenderMerge.prepare x_render_tokenize RenderMerge.token_opcodes RenderMerge.merge_changes
+  RenderMerge.merge_change_groups RenderMerge.reconcile_change_groups RenderMerge.assemble_diff RenderMerge.render_string
   Coq.Init.Nat.add BinInt.Z.add BinNat.N.to_nat.
